@@ -28,6 +28,17 @@ pub fn check(case: &Case) -> Outcome {
     o.class_if(depth >= 2, "depth>=2");
     o.class_if(delim, "delimiter-in-string");
     o.class_if(case.vals.len() >= 2, "concatenation");
+    fn max_str(v: &RVal) -> usize {
+        match v {
+            RVal::Int(_) => 0,
+            RVal::Str(s) => s.len(),
+            RVal::List(l) => l.iter().map(max_str).max().unwrap_or(0),
+            RVal::Dict(d) => d.iter().map(|(k, v)| k.len().max(max_str(v))).max().unwrap_or(0),
+        }
+    }
+    let ms = case.vals.iter().map(max_str).max().unwrap_or(0);
+    o.class_if(ms >= 1000, "string>=1000-bytes");
+    o.class_if(ms >= 9_999_999, "string>=9999999-bytes");
 
     let bvals: Vec<_> = case.vals.iter().map(to_bvalue).collect();
 
